@@ -2,6 +2,9 @@ import XalanModel.C05.Sax
 import XalanModel.C05.Stream
 import XalanModel.C05.Target
 import XalanModel.C05.Index
+import XalanModel.C05.StreamHold
+import XalanModel.C05.Wrapper
+import XalanModel.C05.XDom
 import Driver.Util
 /-
 xm_c05: replays the request lines of harness/c05_core.cpp on the Lean models.
@@ -107,6 +110,19 @@ def saxReply (spec : Bool) (ws : List String) : String :=
           s!" ord=1 max={1 + (creationLog evs { accumulate := true }).length}"
       | .error e => showErr e
 
+/-- `wrap`: a DOM built node by node from the events (no merging: a DOM keeps adjacent text nodes), wrapped eagerly.
+reply: dump, `ord=1`, `max=` last index handed out by `wrapDocument` -/
+def wrapReply (ws : List String) : String :=
+  match ws.mapM parseEv with
+  | none => "bad"
+  | some evs =>
+    match toForest (evs.length + 1) evs with
+    | some (f, []) =>
+      let w := wrapDocument f
+      let mx := (w.map (·.2)).foldl max 1
+      "ok " ++ (if f = .nil then "-" else dump f) ++ s!" ord=1 max={mx}"
+    | _ => "bad"
+
 def parseTEv (s : String) : Option TEv :=
   match s.splitOn ":" with
   | "S" :: n :: attrs => do
@@ -132,6 +148,15 @@ def fstReply (spec : Bool) (ws : List String) : String :=
     | .ok t => "ok " ++ (if t = .nil then "-" else dump t) ++ " ord=1"
     | .error e => showErr e
 
+/-- `xdom`: FormatterToXercesDOM into an empty DOM document -/
+def xdomReply (ws : List String) : String :=
+  match ws.mapM parseTEv with
+  | none => "bad"
+  | some evs =>
+    match xbuild evs with
+    | .ok t => "ok " ++ (if t = .nil then "-" else dump t)
+    | .error e => showErr e
+
 def parseOp (s : String) : Option WOp :=
   match s.splitOn ":" with
   | ["w", t] => (Driver.unitsOfHex t).map .wide
@@ -146,12 +171,30 @@ def parseOp (s : String) : Option WOp :=
 /-- TranscodeToLocalCodePage on ASCII: one byte per unit -/
 def trAscii (s : List Nat) : Bytes := s
 
+/-- UTF-8 of a run of UTF-16 units (complete pairs; a lone surrogate is encoded like a BMP unit — the generator never
+sends one to a synchronisation point) -/
+def trUtf8 : List Nat → Bytes
+  | [] => []
+  | [u] => if u < 0x80 then [u] else if u < 0x800 then [0xC0 + u / 64, 0x80 + u % 64]
+           else [0xE0 + u / 4096, 0x80 + u / 64 % 64, 0x80 + u % 64]
+  | h :: l :: r =>
+    if isLead h && isTrail l then
+      let c := 0x10000 + (h - 0xD800) * 1024 + (l - 0xDC00)
+      [0xF0 + c / 262144, 0x80 + c / 4096 % 64, 0x80 + c / 64 % 64, 0x80 + c % 64] ++ trUtf8 r
+    else (if h < 0x80 then [h] else if h < 0x800 then [0xC0 + h / 64, 0x80 + h % 64]
+          else [0xE0 + h / 4096, 0x80 + h / 64 % 64, 0x80 + h % 64]) ++ trUtf8 (l :: r)
+
 def showLog (l : List Out) : String :=
   String.join (l.map fun | .chunk b => "k:" ++ hexOfBytes b ++ " " | .flushed => "F ")
 
-def outReply (ws : List String) : String :=
+def outReply (fixed : Bool) (ws : List String) : String :=
   match ws with
-  | bs :: bud :: fh :: ops =>
+  | bs :: bud :: fh :: ops0 =>
+    -- a leading `e` selects the UTF-8 transcoder (setOutputEncoding("UTF-8") on the empty stream writes nothing)
+    let utf8 := ops0.head? == some "e"
+    let ops := if utf8 then ops0.drop 1 else ops0
+    let trAscii := if utf8 then trUtf8 else trAscii
+    let wrun := if fixed then wrunH else wrun
     match bs.toNat?, (if bud = "-" then some none else bud.toNat?.map some), ops.mapM parseOp with
     | some bs, some bud, some ops =>
       let st : WSt := { bufSize := if bs = 0 then 1 else bs, budget := bud, hasFlushHandler := fh = "1" }
@@ -165,8 +208,11 @@ def outReply (ws : List String) : String :=
 
 def step (spec : Bool) (s : Unit) : List String → Unit × String
   | "sax" :: ws => (s, saxReply spec ws)
-  | "out" :: ws => (s, if spec then "spec-n/a" else outReply ws)
+  -- `out`: the stream as written; with --spec: with proposed/C05-text-surrogate-split.diff (hold-back) applied
+  | "out" :: ws => (s, outReply spec ws)
   | "fst" :: ws => (s, fstReply spec ws)
+  | "wrap" :: ws => (s, wrapReply ws)
+  | "xdom" :: ws => (s, xdomReply ws)
   | ["data", h] => (s, match bytesOfHex h with
       | some b => hexOfBytes (cstr (capiData b))
       | none => "bad")
